@@ -114,7 +114,9 @@ CLAIMS = {
            'block of uniforms, empties included), strided_shards_partition (l[r::W] disjoint, covering, sizes N/W (+1)), and the equality of sampler / engine / calibration '
            'rates (generated expressions) are theorems for all N, q, W. The samplers are tensor/generator code: their texts are pinned and the model is compared exactly with '
            'the real samplers fed with chosen float32 uniforms (incl. values at the threshold); DPDataLoader is exercised over loader lengths incl. 93, 99, 105 and element '
-           'structures. Partial: independence and uniformity of torch.rand are assumed, not verified.'),
+           'structures (tuple, bare tensor, mapping, nested, numpy, strings). The empty batch: empty_like_batch (pinned branch by branch to a tree function) keeps structure, trailing shapes and '
+           'dtypes and has batch extent zero everywhere, for every batch tree (theorem, induction over nested trees); the real function is compared with the model on generated trees '
+           '(one repaired defect). Partial: independence and uniformity of torch.rand are assumed, not verified.'),
  },
  'C08': {
   'technique': 'Coq loop-invariant proof on the generated bisection with an arbitrary epsilon function; binary64 correspondence with a synthetic accountant; end-to-end calibration runs',
